@@ -1,5 +1,5 @@
 import PsVerif.Generated.Structure
-import PsVerif.Props.Ties.Determinism
+import PsVerif.Props.Ties.Within
 /-! Ties: package-level state and the lock protocol of the name tables (C18). -/
 namespace PsVerif.Props.Ties
 open PsVerif.Generated
